@@ -234,7 +234,7 @@ def reinforce : P String := do
           else "spec=na"
       pure (s!"loss={ds out.loss} rl={ds out.reinforceLoss} blloss={ds bl.loss} blval={tenStr bl.val} "
         ++ s!"advshape={out.adv.sh.toStr} rewardshape={R.t.sh.toStr} advgrad={maxd} blgrad={blgrad} rewardgrad={rgrad} "
-        ++ s!"state={bl.state} {spec}")
+        ++ s!"state={bl.state} adv={rsl (out.adv.toList.map (·.v))} {spec}")
 
 /-- `train.warmup N BETA NEV (cb EPOCH | ev BLKIND… tenD(reward))^NEV`: a history of epoch callbacks and
 evaluations of a `WarmupBaseline` whose inner baseline's results are given (`given …`/`no`/`ema …`). -/
